@@ -49,12 +49,25 @@ class FakeSeg:
 
 
 class Clock:
+    """Stands in for the `time` module of cascade.shm.dataset: a wall clock and a monotonic clock with another origin."""
     t = 1_000_000
 
     @classmethod
     def time_ns(cls):
         cls.t += 1000
         return cls.t
+
+    @classmethod
+    def time(cls):
+        return cls.time_ns() / 1e9
+
+    @classmethod
+    def monotonic_ns(cls):
+        return cls.time_ns() + 7 * 10 ** 17
+
+    @classmethod
+    def monotonic(cls):
+        return cls.monotonic_ns() / 1e9
 
 
 class GateLock:
